@@ -214,6 +214,11 @@ def chunks(lst, n):
 
 def run_descs(res, check_id, unit, descs, monitor_classes, nontrivial_rule=None, bound=0, kinds=None, shim_factory=None, drive=None):
     for desc in descs:
+        if res.status["aborted"] >= 4:
+            # runaway executions (endless loops inside the library) in several worlds of this unit: the rest is not explored
+            res.capped = True
+            res.notes["unit cut short after runaway executions"] += 1
+            break
         explore(res, check_id, {k: v for k, v in unit.items() if k != "descs"}, desc, monitor_classes, bound=bound,
                 kinds=kinds, nontrivial_rule=nontrivial_rule, shim_factory=shim_factory, drive=drive)
     return res
